@@ -145,6 +145,9 @@ def _run(sels, pays, choices, tadv):
         ev = h.event(c09._letter(sels[i], pays[i]))
         before = {f: _running(st, f) for f in react_flows}
         led.feed(ev)
+        if st.main_flow_state.status == v2.FlowStatus.WAITING:
+            v2.start(st)  # like RuntimeV2_x.process_events: a finished main flow is started again before the next event
+            h.observe(st.outgoing_events)
         v2.run_to_completion(st, ev)
         h.observe(st.outgoing_events)
         n_stops_before = dict(led.stops)
